@@ -272,7 +272,36 @@ fn main() {
             let mut seqs: Vec<seqprops::SeqOut> = Vec::new();
             if violations == 0 && flag(&args, "--no-seq").is_none() {
                 if seqprops::has_seq_part(&p) {
-                    seqs.push(seqprops::run(&p, tier));
+                    // In a subprocess: memory corruption in the code under test must not take the
+                    // check down with it; a crash is a verdict about the code, not about us.
+                    match std::process::Command::new(&o.small_bin).args(["seqpart", &p, "--tier", tier.name()]).output() {
+                        Ok(outp) => {
+                            let txt = String::from_utf8_lossy(&outp.stdout).to_string();
+                            match txt.lines().find_map(|l| l.strip_prefix("@@ ")).map(serde_json::from_str::<seqprops::SeqOut>) {
+                                Some(Ok(so)) => seqs.push(so),
+                                _ => {
+                                    let err = String::from_utf8_lossy(&outp.stderr);
+                                    let last: Vec<&str> = err.lines().rev().take(3).collect();
+                                    seqs.push(seqprops::SeqOut {
+                                        present: true,
+                                        states: 1,
+                                        transitions: 1,
+                                        violations: vec![seqprops::SeqViol {
+                                            case: "whole enumeration".into(),
+                                            message: format!(
+                                                "the sequential enumeration of this property crashed ({}) while executing the code under test: {}",
+                                                outp.status,
+                                                last.join(" | ")
+                                            ),
+                                            replay: json!({"kind": "seq", "part": "crash", "command": format!("vh seqpart {} --tier {}", p, tier.name())}),
+                                        }],
+                                        ..Default::default()
+                                    });
+                                }
+                            }
+                        }
+                        Err(e) => machinery.push(format!("cannot run the sequential part: {}", e)),
+                    }
                     if tier == prop::Tier::Thorough {
                         if let Some(ship) = &o.ship_bin {
                             match std::process::Command::new(ship).args(["seqpart", &p, "--tier", "thorough"]).output() {
